@@ -21,6 +21,8 @@ inductive Err
   | hang          -- the Python loops forever (stray `]` in `_split_chem_formula`, empty glycan name)
 deriving DecidableEq, Repr
 
+deriving instance DecidableEq for Except
+
 def Err.name : Err → String
   | .unknownMod => "UnknownModificationError" | .unknownModMass => "UnknownModificationMassError"
   | .invalidDeltaMass => "InvalidDeltaMassError" | .invalidComp => "InvalidCompositionError"
